@@ -2,6 +2,7 @@ import Fzf.Lemmas.Subseq
 import Fzf.Lemmas.Prefilter
 import Fzf.Lemmas.Prog
 import Fzf.Generated.Consts
+import Fzf.Generated.GoFuncs
 /-
 C02 — every reported match has a genuine witness; non-match means none exists.
 Property theorems only.
@@ -133,6 +134,13 @@ theorem C02_v1_sound_complete (cfg : Cfg) (cs norm fwd : Bool) (t : Text) (isByt
     constructor
     · intro h0; simp [Res.none] at h0
     · intro hs; exact absurd hs hno
+
+/-- The index mapping of the backward scans is the function in the source: `indexAt`, translated
+    from /repo/src/algo/algo.go on every run, is the model's `indexAt` and stays inside the text. -/
+theorem C02_indexAt_is_source (i n : Nat) (fwd : Bool) (h : i < n) :
+    Generated.Go.indexAt i n fwd = (indexAt i n fwd : Int) ∧ indexAt i n fwd < n := by
+  unfold Generated.Go.indexAt indexAt
+  cases fwd <;> simp <;> omega
 
 /-- The forward scan of V1 never indexes out of range and is the greedy subsequence test. -/
 theorem C02_v1_forward_total (cfg : Cfg) (cs norm fwd : Bool) (t p : Text) (hp : 0 < p.size) :
